@@ -10,6 +10,7 @@ from hypothesis import strategies as st
 from . import boot                                    # noqa: F401
 from .runner import CaseResult, Part
 from . import pipesim
+from . import c05_flux
 
 PID  = 'C05'
 RULE = ('cases = workload of 1-8 tasks in 1-2 bulks (exit codes, optional input staging) x fault plan (per task at '
@@ -98,10 +99,14 @@ def parts(tier):
     return [Part('pipeline', cases(), quick=420, thorough=1500),
             # executor-level scenario on the virtual clock: start-up reported in time, then the task
             # runs longer than its start-up limit (CANCELED only if a timeout was requested and hit)
-            Part('startup_report', enum=c07.startup_cases)]
+            Part('startup_report', enum=c07.startup_cases),
+            # the Flux executor's event handling: process outcome -> target state
+            Part('flux_events', c05_flux.cases(), quick=400, thorough=3000)]
 
 
 def normalise(case):
+    if isinstance(case, dict) and case.get('kind') == 'flux':
+        return c05_flux.normalise(case)
     if isinstance(case, dict) and case.get('kind') == 'sweep':
         from . import c07
         return c07.normalise(case)
@@ -126,6 +131,8 @@ def normalise(case):
 
 
 def run_case(case):
+    if case.get('kind') == 'flux':
+        return c05_flux.run_case(case)
     if case.get('kind') == 'sweep':
         from . import execsim
         xs = execsim.run_schedule(case)
